@@ -685,6 +685,71 @@ class Body:
             f = frozenset(x for x in f if not fact_reads_memory(x))
         return f | frozenset(self.edge_facts().get((src, dst), []))
 
+    # --- uses ---------------------------------------------------------------------------------
+    def uses(self):
+        """local -> list of (bb, idx|'term', how) for every read of the local (moves/copies/borrows,
+        projections through it, switch discriminants, call arguments). Drops are recorded as how='drop'."""
+        key = 'uses'
+        if key in self._cache:
+            return self._cache[key]
+        u = defaultdict(list)
+
+        def place_reads(p, bb, idx, how):
+            u[p['l']].append((bb, idx, how))
+            for el in p['p']:
+                if el['k'] == 'index':
+                    u[el['local']].append((bb, idx, 'index'))
+
+        def op_reads(o, bb, idx, how):
+            if o['k'] in ('copy', 'move'):
+                place_reads(o['place'], bb, idx, how)
+
+        for i in self.live:
+            blk = self.blocks[i]
+            for j, st in enumerate(blk['stmts']):
+                if st['k'] != 'assign':
+                    continue
+                rv = st['rv']
+                k = rv['k']
+                if k in ('use', 'cast', 'repeat'):
+                    op_reads(rv['op'], i, j, 'use')
+                elif k in ('ref', 'rawptr'):
+                    place_reads(rv['place'], i, j, 'ref')
+                elif k == 'binop':
+                    op_reads(rv['a'], i, j, 'use')
+                    op_reads(rv['b'], i, j, 'use')
+                elif k == 'unop':
+                    op_reads(rv['a'], i, j, 'use')
+                elif k == 'discr':
+                    place_reads(rv['place'], i, j, 'discr')
+                elif k == 'aggr':
+                    for o in rv['ops']:
+                        op_reads(o, i, j, 'use')
+                # writes through a projection read the base pointer
+                if st['place']['p']:
+                    for el in st['place']['p']:
+                        if el['k'] == 'index':
+                            u[el['local']].append((i, j, 'index'))
+                    if any(el['k'] == 'deref' for el in st['place']['p']):
+                        u[st['place']['l']].append((i, j, 'store-through'))
+            t = blk['term']
+            k = t['k']
+            if k == 'switch':
+                op_reads(t['discr'], i, 'term', 'switch')
+            elif k == 'call':
+                op_reads(t['func'], i, 'term', 'callee')
+                for a in t['args']:
+                    op_reads(a, i, 'term', 'arg')
+            elif k == 'assert':
+                op_reads(t['cond'], i, 'term', 'assert')
+            elif k == 'drop':
+                u[t['place']['l']].append((i, 'term', 'drop'))
+        self._cache[key] = u
+        return u
+
+    def real_uses(self, l):
+        return [x for x in self.uses().get(l, []) if x[2] != 'drop']
+
     # --- misc ---------------------------------------------------------------------------------
     def calls_matching(self, *pats):
         return [c for c in self.calls if c.is_(*pats)]
@@ -808,7 +873,7 @@ TRANSPARENT_CALLS = [
     r'AsRef<.*>>::as_ref$', r'Borrow<.*>>::borrow$', r'BorrowMut<.*>>::borrow_mut$',
     r'::as_path$', r'::as_bytes$', r'::as_str$', r'::as_slice$', r'::as_mut$', r'::as_ref$',
     r'Clone>::clone$', r'::to_owned$', r'::to_vec$', r'::into_owned$', r'::to_string$',
-    r'From<.*>>::from$', r'Into<.*>>::into$', r'::as_byte_array$', r'::from_byte_array$',
+    r'From<.*>>::from$', r'Into<.*>>::into$', r'impl .*From<.*> for .*>::from$', r'::as_byte_array$', r'::from_byte_array$',
     r'::borrow_mut$', r'::borrow$', r'::iter$', r'::iter_mut$', r'::into_par_iter$', r'::deref$', r'::clone$',
 ]
 _TRANSPARENT_RE = [re.compile(p) for p in TRANSPARENT_CALLS]
@@ -1164,7 +1229,7 @@ class Fmt:
 
 def decode_fmt(body, cs):
     """cs must be a call to fmt::Arguments::new / from_str / new_const."""
-    if cs.is_('~Arguments::<.*>::from_str$', '~Arguments::from_str$', '~Arguments::<.*>::new_const'):
+    if cs.is_('~Arguments::<.*>::from_str(_nonconst)?$', '~Arguments::from_str(_nonconst)?$', '~Arguments::<.*>::new_const'):
         e = unname(peel(body.op_expr(cs.args[0])))
         if e[0] == 'str':
             return Fmt(cs, [('lit', e[1])])
@@ -1207,7 +1272,7 @@ def decode_fmt(body, cs):
 def fmt_sites(body):
     out = []
     for cs in body.calls:
-        if cs.is_('~fmt::Arguments::<.*>::(new|from_str|new_const)', '~fmt::Arguments::(new|from_str)$'):
+        if cs.is_('~fmt::Arguments::<.*>::(new|from_str|from_str_nonconst|new_const)$', '~fmt::Arguments::(new|from_str|from_str_nonconst)$'):
             out.append(decode_fmt(body, cs))
     return out
 
@@ -1218,10 +1283,136 @@ def fmt_of_string_expr(prog, body, e):
     if e[0] == 'call' and re.search(r'fmt::format$|must_use$|format::\{closure|format_inner$', e[1]):
         inner = peel(e[2][0])
         return fmt_of_string_expr(prog, body, inner)
-    if e[0] == 'call' and re.search(r'fmt::Arguments::<.*>::(new|from_str)$', e[1]):
+    if e[0] == 'call' and re.search(r'fmt::Arguments::<.*>::(new|from_str|from_str_nonconst)$', e[1]):
         site = e[3]
         b = prog.bodies.get(site[0]) or body
         cs = b.call_at.get(site[1])
         if cs is not None:
             return decode_fmt(b, cs)
     return None
+
+
+# ------------------------------------------------------------------------------------------
+# canonical rendering: a stable, local-free normal form of provenance expressions
+
+_OPS = {'Add': '+', 'Sub': '-', 'Mul': '*', 'Div': '/', 'Rem': '%', 'BitAnd': '&', 'BitOr': '|', 'BitXor': '^',
+        'Shl': '<<', 'Shr': '>>', 'Lt': '<', 'Le': '<=', 'Gt': '>', 'Ge': '>=', 'Eq': '==', 'Ne': '!=',
+        'AddUnchecked': '+', 'SubUnchecked': '-', 'MulUnchecked': '*', 'ShlUnchecked': '<<', 'ShrUnchecked': '>>'}
+
+
+def method_name(path):
+    p = path
+    # strip generic arguments
+    depth = 0
+    out = []
+    for ch in p:
+        if ch == '<':
+            depth += 1
+        elif ch == '>':
+            depth -= 1
+        elif depth == 0:
+            out.append(ch)
+    segs = [x for x in ''.join(out).split('::') if x and x != ' as ']
+    return segs[-1] if segs else path
+
+
+def canon(e, keep_casts=True, _d=0):
+    """canonical string of an expression: refs/derefs and transparent calls are dropped, parameters are
+    positional (self, a2, a3..), `(next(I) as Some).0` is each(I), `x?` is x?, calls use the method name."""
+    if _d > 40:
+        return '…'
+    d = _d + 1
+    if not isinstance(e, tuple) or not e:
+        return repr(e)
+    k = e[0]
+    if k in ('ref', 'deref'):
+        return canon(e[1], keep_casts, d)
+    if k == 'named':
+        inner = unname(e)
+        if inner[0] in ('int', 'str', 'bool'):
+            return canon(inner, keep_casts, d)
+        return method_name(e[1])
+    if k == 'int':
+        return str(e[1])
+    if k == 'bool':
+        return 'true' if e[1] else 'false'
+    if k == 'str':
+        return json.dumps(e[1])
+    if k == 'bytes':
+        return 'b' + json.dumps(e[1].decode('latin1'))
+    if k == 'unit':
+        return '()'
+    if k == 'const':
+        return 'const<%s>' % e[2] if e[2] not in ('zst', 'unevaluated') else 'const<%s>' % e[1]
+    if k == 'fn':
+        return 'fn:' + method_name(e[1])
+    if k == 'param':
+        return 'self' if (e[2] == 1 and (len(e) > 3 and e[3] == 'self')) else 'a%d' % e[2]
+    if k == 'local':
+        return '_%d' % e[2]
+    if k == 'try':
+        return canon(e[1], keep_casts, d) + '?'
+    if k == 'field':
+        base = e[1]
+        b2 = peel(base, calls=False)
+        if e[2] == '0' and b2[0] == 'variant' and b2[2] == 'Some':
+            c = peel(b2[1], calls=False)
+            if c[0] == 'call' and method_name(c[1]) == 'next' and c[2]:
+                return 'each(%s)' % canon(c[2][0], keep_casts, d)
+        if b2[0] == 'variant':
+            return '%s.%s' % (canon(base, keep_casts, d), e[2])
+        return '%s.%s' % (canon(base, keep_casts, d), e[2])
+    if k == 'variant':
+        return '(%s as %s)' % (canon(e[1], keep_casts, d), e[2])
+    if k == 'idx':
+        return '%s[%s]' % (canon(e[1], keep_casts, d), canon(e[2], keep_casts, d))
+    if k == 'cidx':
+        return '%s[%s%d]' % (canon(e[1], keep_casts, d), '-' if e[3] else '', e[2])
+    if k == 'subslice':
+        return '%s[%d..%s%d]' % (canon(e[1], keep_casts, d), e[2], '-' if e[4] else '', e[3])
+    if k == 'discr':
+        return 'discr(%s)' % canon(e[1], keep_casts, d)
+    if k == 'call':
+        name = e[1]
+        if e[2] and is_transparent_call(name):
+            return canon(e[2][0], keep_casts, d)
+        m = method_name(name)
+        if m in ('must_use',) and e[2]:
+            return canon(e[2][0], keep_casts, d)
+        if m == 'index' and len(e[2]) == 2:
+            return '%s[%s]' % (canon(e[2][0], keep_casts, d), canon(e[2][1], keep_casts, d))
+        return '%s(%s)' % (m, ', '.join(canon(a, keep_casts, d) for a in e[2]))
+    if k == 'bin':
+        op = _OPS.get(e[1], e[1])
+        return '(%s %s %s)' % (canon(e[2], keep_casts, d), op, canon(e[3], keep_casts, d))
+    if k == 'un':
+        return '%s(%s)' % (e[1], canon(e[2], keep_casts, d))
+    if k == 'cast':
+        if keep_casts:
+            return '(%s as %s)' % (canon(e[2], keep_casts, d), e[3])
+        return canon(e[2], keep_casts, d)
+    if k == 'aggr':
+        if e[1] == 'tuple':
+            return '(%s)' % ', '.join(canon(v, keep_casts, d) for _, v in e[3])
+        if e[1] == 'array':
+            return '[%s]' % ', '.join(canon(v, keep_casts, d) for _, v in e[3])
+        if e[1] == 'closure':
+            return 'closure:%s' % e[2].split('::')[-1]
+        nm = '::'.join(e[2].split('::')[-2:]) if e[1] == 'adt' else e[2]
+        return '%s{%s}' % (nm, ', '.join('%s: %s' % (n2, canon(v, keep_casts, d)) for n2, v in e[3]))
+    if k == 'phi':
+        # accumulator idiom: phi(0, loopvar + X) is a sum over the enclosing loop
+        if len(e[1]) == 2:
+            z = [x for x in e[1] if int_value(x) == 0]
+            a = [x for x in e[1] if x[0] == 'bin' and x[1] in ('Add', 'AddUnchecked') and (x[2][0] == 'cyc' or x[3][0] == 'cyc')]
+            if len(z) == 1 and len(a) == 1:
+                term = a[0][3] if a[0][2][0] == 'cyc' else a[0][2]
+                return 'sum(%s)' % canon(term, keep_casts, d)
+        return 'phi(%s)' % ' | '.join(sorted(canon(x, keep_casts, d) for x in e[1]))
+    if k == 'cyc':
+        return 'loopvar'
+    if k == 'ovf':
+        return 'ovf(%s)' % canon(e[1], keep_casts, d)
+    if k == 'unknown':
+        return '?<%s>' % e[1]
+    return repr(e)
